@@ -275,6 +275,19 @@ def run(R):
             run_cmd(sb, ["rename", s, t, s + "_root", "--output", "json"], "RenameResult.json", "rename <root named with the term>", plan_required=True)
             run_cmd(sb, ["plan", t, s, s + "_root", "--output", "json"], "PlanResult.json", "plan <root named with the term>", plan_required=True)
             run_cmd(sb, ["search", t, s + "_root", "--output", "json"], "PlanResult.json", "search <root named with the term>", plan_required=True)
+        # every planning / applying command x (pattern matches | matches nothing) x (dry run | for real) x (--quiet or not): exit 0
+        # always comes with exactly one document - a run that finds nothing to do included
+        nomatch = "zz_" + s + "_none"
+        for base, envn in ((["rename"], "RenameResult.json"), (["replace", "--no-regex"], "Plan"), (["replace"], "Plan"),
+                           (["plan"], "PlanResult.json"), (["search"], "PlanResult.json")):
+            for pat in (s, nomatch):
+                for dry in ((["--dry-run"], []) if base[0] not in ("search",) else ([],)):
+                    for q in ([], ["--quiet"]):
+                        with cli.Sandbox(tree) as sbm:
+                            args = base + ([pat] if base[0] == "search" else [pat, t]) + dry + q + ["--output", "json"]
+                            stats["matrix_runs"] = stats.get("matrix_runs", 0) + 1
+                            run_cmd(sbm, args, envn, f"{' '.join(base)} ({'match' if pat == s else 'no match'}{', dry run' if dry else ''}{', quiet' if q else ''})",
+                                    plan_required=envn != "Plan")
         # damaged workspace state (a crash or a full disk truncated a file under .renamify, a merge left conflict markers, a hand edit):
         # whatever the command then does - recover with a warning or fail - standard output stays one document or empty
         damages = [("truncated", lambda b: b[:40]), ("empty", lambda b: b""), ("garbage", lambda b: b"\x00\xff not json"),
